@@ -187,7 +187,7 @@ static void run_lock_case(std::string const& id, Case const& c, vctl::Rng& rng)
     }
     g_nsched = 0;
     g_phase = 1;
-    alarm(60);
+    alarm(20);
     DQ* dq = new DQ((std::size_t) c.k);    // never destroyed: a corrupted structure must not take the harness down
     std::size_t npush = 0;
     std::vector<std::string> initres;
@@ -255,7 +255,10 @@ static void run_lock_case(std::string const& id, Case const& c, vctl::Rng& rng)
             g_nsched = g_nsched + 1;
             std::uint64_t a = ctl.a_of(t);
             int ca = 0;
-            if (a != 0)
+            int kind = ctl.site_of(t) - 1710;
+            if (kind == 4 || kind == 8)
+                ca = (int) a;    // the tag of the anchor snapshot the thread holds
+            else if (a != 0)
             {
                 auto it = canon.find(a);
                 if (it == canon.end()) it = canon.emplace(a, (int) canon.size() + 1).first;
@@ -322,7 +325,7 @@ static void run_seq_case(std::string const& id, vctl::Rng& rng)
     std::snprintf(g_prefix, sizeof g_prefix, "IN DS %s %d", id.c_str(), k);
     g_nsched = 0;
     g_phase = 1;
-    alarm(60);
+    alarm(20);
     std::printf("IN DS %s %d %s\n", id.c_str(), k, prog_str(p).c_str());
     std::fflush(stdout);
     DQ* dq = new DQ((std::size_t) k);
